@@ -159,7 +159,12 @@ def run_concrete(contract, args):
     """call the real function; -> ('return', value) | ('raise', ClassName)"""
     module, owner, name = real_callable(contract)
     params = contract.params
-    vals = [args[p] for p in params]
+    vals = []
+    for p in params:
+        if p.startswith("*"):
+            vals.extend(args[p[1:]])
+        else:
+            vals.append(args[p])
     try:
         if contract.kind == "property":
             return ("return", getattr(vals[0], name))
@@ -276,6 +281,7 @@ def verify(contract, tier, check, budget=None, prefix=None):
         values = {}
         try:
             for p in contract.params:
+                p = p.lstrip("*")
                 values[p] = shape.types[p].fresh(p, st)
             st.env.update(values)
             st0 = st.clone()
@@ -352,6 +358,13 @@ def verify(contract, tier, check, budget=None, prefix=None):
             pass
         for ob in ex.obligations:
             oid = f"{prop}.{contract.qualname}[{shape.name}].{ob.name}"
+            g = ob.goal
+            if isinstance(g, bool) or z3.is_true(z3.simplify(g)):
+                if g is True or z3.is_true(z3.simplify(g)):
+                    rep.obligations += 1
+                    rep.discharged += 1
+                    check.add_obligation(Obligation(oid, contract.key, ob.kind, "partial evaluation (goal reduces to true)", "discharged", 0.0))
+                    continue
             jobs.append((oid, to_smt2(ob.hyps, ob.goal), budget, 4, tier == "thorough"))
             metas.append((shape, values, st0, ob))
         if not ex.obligations:
